@@ -180,7 +180,7 @@ def gen_program(fl, rnd, depth, max_depth, keysets=None):
             if rnd.random() < 0.4:
                 # the context object is created first, settings change, and only then is it entered (as a `with` target,
                 # through an ExitStack, or as a decorator around the body)
-                opt["mode"] = rnd.choice(["prepared", "exitstack", "decorator", "decorator-twice"])
+                opt["mode"] = rnd.choice(["prepared", "exitstack", "decorator", "decorator-twice", "decorator-recursive"])
                 opt["pre"] = [(k, values(fl, rnd, k, True)) for k in rnd.sample(ks + KEYS, rnd.randrange(0, 3))]
             steps.append(("ctx", kwargs, gen_program(fl, rnd, depth + 1, max_depth, keysets), rnd.random() < 0.35, opt))
         elif c < 0.65:
@@ -262,6 +262,13 @@ class Runner:
         ctx.hit("probe:Op.is_close")
         if exp_close != got_close:
             ctx.violation("Op.is_close does not follow the current tolerances", {"atol": atol, "rtol": rtol}, exp_close, got_close)
+        big_a = np.ones(20000)
+        for gap in (0.4, 0.3):  # (0.3 is within the relative tolerance 0.25 of 1.3, and beyond every absolute one but 0.5)
+            want = bool(gap <= atol + rtol * (1.0 + gap))
+            got_big = np.asarray(fl.Op.is_close(big_a, big_a + gap))
+            ctx.hit("probe:Op.is_close on a large batch")
+            if got_big.shape != (20000,) or bool(got_big[0]) != want or bool(got_big[-1]) != want or bool(got_big.all()) != want or bool(fl.Op.is_close(1.0, 1.0 + gap)) != want:
+                ctx.violation("Op.is_close does not follow the current tolerances", {"atol": atol, "rtol": rtol, "values": 20000, "gap": gap}, want, [bool(got_big[0]), bool(got_big[-1])])
         dt = fl.scalar(1.5).dtype
         ctx.hit("probe:scalar")
         if dt != np.dtype(model["float_type"]):
@@ -305,7 +312,24 @@ class Runner:
                         self.ctx.hit("event:setting assigned between creation and entry of a context")
                     saved = {k: model[k] for k in kwargs}
                     self.ctx.hit("entered:" + mode)
-                    if mode in ("decorator", "decorator-twice"):
+                    if mode == "decorator-recursive":
+                        # one decorator object around a function that calls itself: the context is active twice at once
+                        def twice(level=0):
+                            model.update(kwargs)
+                            try:
+                                if level == 0:
+                                    decorated(1)
+                                    model.update(kwargs)  # back in the outer call: the inner one restored what it found on entry
+                                    self.probe_helpers(model)
+                                else:
+                                    self.execute(body, model)
+                            finally:
+                                if level == 0:
+                                    model.update(saved)
+
+                        decorated = cm(twice)
+                        decorated(0)
+                    elif mode in ("decorator", "decorator-twice"):
                         decorated = cm(inside)
                         decorated()
                         if mode == "decorator-twice":
@@ -403,6 +427,31 @@ def run(ctx):
             after = dict(vars(fl.settings))
             if any(after[k] is not before[k] for k in before):
                 ctx.violation("creating a context without entering it changed the settings", {}, {k: show(v) for k, v in before.items()}, {k: show(v) for k, v in after.items()})
+        # 3b. two contexts over different settings that overlap without nesting: enter A, enter B, leave A, leave B (generators
+        # consumed in turns, fixtures, hand-written __enter__/__exit__): each one puts back its own settings, and only those
+        disjoint = [(a, b) for a in subsets for b in subsets if not set(a) & set(b)]
+        for i, rnd in ctx.cases("interleaved", ctx.scale(120, len(disjoint))):
+            a, b = disjoint[(i * 37) % len(disjoint)]
+            pristine = dict(vars(fl.settings))
+            model = {k: pristine[ATTR[k]] for k in KEYS}
+            ka, kb = {k: values(fl, rnd, k, True) for k in a}, {k: values(fl, rnd, k, True) for k in b}
+            ca, cb = fl.settings.context(**ka), fl.settings.context(**kb)
+            try:
+                ca.__enter__()
+                model.update(ka)
+                cb.__enter__()
+                model.update(kb)
+                runner.probe_helpers(model)
+                ca.__exit__(None, None, None)
+                model.update({k: pristine[ATTR[k]] for k in a})
+                runner.probe_helpers(model)
+                cb.__exit__(None, None, None)
+                model.update({k: pristine[ATTR[k]] for k in b})
+                runner.probe_helpers(model)
+                ctx.hit("event:contexts left in the order they were entered")
+            finally:
+                for attr, v in pristine.items():
+                    vars(fl.settings)[attr] = v
         # 4. random programs
         for i, rnd in ctx.cases("random", nrandom):
             prog = gen_program(fl, rnd, 0, max_depth)
@@ -414,7 +463,7 @@ def run(ctx):
     ctx.exhaustive = True
     ctx.extra["exhaustive_space"] = "nesting depth 2 over all 28x28 single/double key subsets x 4 exception placements; 7x7 (named, assigned) pairs x {normal, exception}"
     ctx.require("hook:Settings.context", "event:enter", "event:exit:normal", "event:exit:exception", "exception_crossed_a_context", "assign:named", "assign:unnamed", "depth:2", "depth:3", "base_exception_crossed_a_context")
-    ctx.require("entered:prepared", "entered:exitstack", "entered:decorator", "event:context used as a decorator", "event:setting assigned between creation and entry of a context", "probe:Op.str:2-D array")
+    ctx.require("entered:prepared", "entered:exitstack", "entered:decorator", "event:context used as a decorator", "event:setting assigned between creation and entry of a context", "probe:Op.str:2-D array", "entered:decorator-recursive", "event:contexts left in the order they were entered", "probe:Op.is_close on a large batch")
 
 
 def passive(ctx, fl, probe):
